@@ -152,11 +152,11 @@ def main():
             if not extra: break
             with ThreadPoolExecutor(max_workers=min(16, len(extra))) as ex: reps += list(ex.map(lambda u: run_unit(u, tier, known_open), extra))
             units = units + extra; closure_added += [u["id"] for u in extra]
-        # inline cross-check (thorough tier, or VERIF_INLINE=1): every (unit, applied callee contract) pair is run once more with the callee's contract REMOVED, i.e.
+        # inline cross-check (both tiers; VERIF_NO_INLINE=1 switches it off for the engine self-tests): every (unit, applied callee contract) pair is run once more with the callee's contract REMOVED, i.e.
         # with the callee's real body inlined.  A postcondition that is refuted there although the modular proof went through means the callee's contract hides a
         # precondition that this call site does not meet (the scenario pre-state of a proof is an implicit `requires`): reported as a refutation of that obligation.
         inline_stats = None
-        if (tier == "thorough" or os.environ.get("VERIF_INLINE")) and not os.environ.get("VERIF_NO_INLINE"):
+        if not os.environ.get("VERIF_NO_INLINE"):
             by_id = {u.get("id"): u for u in units}
             pairs = []
             for rep in reps:
